@@ -1041,6 +1041,7 @@ INVARIANT RecordedAtMostOnce
 PROPERTY RecordedNeverExecutedAgain
 PROPERTY OnlyCompletedRunsRecord
 PROPERTY FreshRecordsWithoutExecuting
+PROPERTY LimitedRunTouchesOnlyItsApp
 ''' % maxops)
     res = require_ok(run_tlc('Ledger', cfg, workers=16, timeout=5000), 'Ledger.tla')
     report.add_tlc('Ledger MaxVer=2 MaxOps=%d' % maxops, res.stats())
@@ -1051,7 +1052,9 @@ PROPERTY FreshRecordsWithoutExecuting
         if len(r['hist']) == maxops:
             ops = [op['op'] for op in r['hist']]
             # at least one run before and one run after a repair command
-            if 'run' in ops and any(o in ('mark', 'markall', 'wipe') for o in ops) and ops[-1] == 'run':
+            runs_ = [o for o in ops if o in ('run', 'runonly')]
+            if runs_ and ops[-1] in ('run', 'runonly') and (
+                    any(o in ('mark', 'markall', 'wipe') for o in ops) or 'runonly' in ops):
                 full.append(r)
     rng = random.Random(seed() * 389 + 8)
     rng.shuffle(full)
@@ -1087,7 +1090,7 @@ PROPERTY FreshRecordsWithoutExecuting
                       'observed': {k: st.get(k) for k in ('outcome', 'ok', 'executed', 'rows', 'error')},
                       'expected_rows': exp['rec'], 'expected_op': eop}
             fp = {'part': 'ledger', 'op': st['op']['op']}
-            if st['op']['op'] == 'run':
+            if st['op']['op'] in ('run', 'runonly'):
                 if st['outcome'] != eop['outcome']:
                     report.fail(dict(fp, **{'class': 'run-outcome-differs', 'observed': st['outcome'],
                                             'expected': eop['outcome']}), detail)
